@@ -21,7 +21,7 @@ Open Scope Z_scope.
 (* ------------------------------------------------------------------ outcomes *)
 
 Inductive exc := ValueError | TypeError | OverflowError | RuntimeError | OSError
-               | UnicodeError | AttributeError | NameError.
+               | UnicodeError | AttributeError | NameError | KeyError.
 
 Inductive outcome (A : Type) := Value (a : A) | PyExc (e : exc) | Panic.
 Arguments Value {A} a.
@@ -303,9 +303,11 @@ Section Glue.
     c_tfm_score : SM -> Z -> cres Z;
     c_scan : SM -> SQ -> Z -> Z -> cres (list (Z * Z));       (* hits of Scanner in iteration order *)
     c_read : fmt -> abc -> list Z -> list ritem;              (* items of the reader, up to the first error *)
-    (* items of the reader over a stream that misbehaves as described by the (opaque) descriptor:
-       the iteration goes on after an error *)
-    c_read_faulty : list Z -> fmt -> abc -> list ritem;
+    (* the reader over a stream that misbehaves as described by the (opaque) descriptor: did a call of
+       the stream fail while the reader was constructed; then, for every next(), the item (None: end
+       of the iteration) and whether a call of the stream failed during that next().  The iteration
+       goes on after an error *)
+    c_read_faulty : list Z -> fmt -> abc -> bool * list (option ritem * bool);
     (* the j-th next() (counting from 0) of the reader behind loader number id of the history;
        None = end of the iteration.  What a reader sees depends on the other readers that share
        its file object; the correspondence run mirrors the interleaving on core readers. *)
@@ -619,14 +621,21 @@ Section Glue.
   Definition format_arg (f : option pyval) : outcome (list Z) :=
     match f with None => Value str_jaspar | Some v => extract_str v end.
 
+  (* how a later read() of a file object misbehaves *)
+  Inductive fault := FRaises (e : exc) | FNotBytes | FTooMany.
+
   (* what the `file` argument turned out to be *)
   Inductive file_arg :=
   | FileData (bytes : list Z)      (* readable path, or file object whose read(n) returns at most n bytes *)
   | FileMissing                    (* path that cannot be opened: OSError *)
   | FileNoRead                     (* object without read(): the AttributeError propagates *)
   | FileNotBytes                   (* read(0) does not return bytes: TypeError *)
-  | FileBroken                     (* read() fails / returns too much after construction *)
-  | FileFaulty (desc : list Z).    (* a later read() raises / returns non-bytes / too much / closes the file *)
+  | FileFaulty (fl : fault) (desc : list Z).  (* a later read() raises / returns non-bytes / too much / closes the file *)
+
+  (* the exception PyFileRead leaves behind for the loader to raise (e7689c9): the exception of
+     read() itself, a TypeError for a result that is not bytes, an OSError for too many bytes *)
+  Definition fault_exc (fl : fault) : exc :=
+    match fl with FRaises e => e | FNotBytes => TypeError | FTooMany => OSError end.
 
   Definition convert_error (e : rerr) : exc :=
     match e with EInvalidData => ValueError | EIo => OSError | ENom => ValueError end.
@@ -657,6 +666,23 @@ Section Glue.
         end
     end.
 
+  Definition item_outcome (a : abc) (it : ritem) : outcome motif :=
+    match it with
+    | ROk r => convert_record a r
+    | RErr e => PyExc (convert_error e)
+    | RPanic => Panic
+    end.
+
+  (* Loader.__next__ over a misbehaving file object: the pending exception of read() wins over the
+     item; without one the item is converted as usual and the end of the reader ends the iteration *)
+  Fixpoint faulty_items (a : abc) (fl : fault) (items : list (option ritem * bool)) : list (outcome motif) :=
+    match items with
+    | [] => []
+    | (_, true) :: r => PyExc (fault_exc fl) :: faulty_items a fl r
+    | (None, false) :: _ => []
+    | (Some it, false) :: r => item_outcome a it :: faulty_items a fl r
+    end.
+
   Definition format_of (f : list Z) (a : abc) : outcome fmt :=
     if zlist_eqb f str_jaspar then (match a with Protein => PyExc ValueError | Dna => Value Jaspar end)
     else if zlist_eqb f str_jaspar16 then Value Jaspar16
@@ -673,16 +699,14 @@ Section Glue.
     | FileMissing => PyExc OSError
     | FileNoRead => PyExc AttributeError
     | FileNotBytes => PyExc TypeError
-    | FileBroken => k <~ format_of f a ;; Value (RLoad [] (PyExc OSError))
-    | FileFaulty desc =>
-        (* PyFileRead turns whatever went wrong in read() into an io::Error; the reader reports it
-           like any I/O error and may be asked for more afterwards *)
+    | FileFaulty fl desc =>
+        (* PyFileRead turns whatever went wrong in read() into an io::Error for the reader and keeps
+           the Python exception; the loader raises that exception instead of whatever the reader made
+           of the failure - from the constructor when the reader already read there, otherwise from
+           the next() during which read() failed; the reader may be asked for more afterwards *)
         k <~ format_of f a ;;
-        Value (RLoadSeq (map (fun it => match it with
-                                        | ROk r => convert_record a r
-                                        | RErr e => PyExc (convert_error e)
-                                        | RPanic => Panic
-                                        end) (c_read_faulty K desc k a)))
+        let (ctor, items) := c_read_faulty K desc k a in
+        if ctor then PyExc (fault_exc fl) else Value (RLoadSeq (faulty_items a fl items))
     | FileData bytes =>
         k <~ format_of f a ;;
         let (ms, t) := load_items a (c_read K k a bytes) in
@@ -1033,7 +1057,7 @@ Section Glue.
     match a, b with
     | ValueError, ValueError | TypeError, TypeError | OverflowError, OverflowError
     | RuntimeError, RuntimeError | OSError, OSError | UnicodeError, UnicodeError
-    | AttributeError, AttributeError | NameError, NameError => true
+    | AttributeError, AttributeError | NameError, NameError | KeyError, KeyError => true
     | _, _ => false
     end.
 
@@ -1102,6 +1126,8 @@ Arguments glue_create {CM FM WM SM SQ SC} K.
 Arguments convert_record {CM FM WM SM SQ SC} K.
 Arguments load_items {CM FM WM SM SQ SC} K.
 Arguments glue_load {CM FM WM SM SQ SC} K.
+Arguments item_outcome {CM FM WM SM SQ SC} K.
+Arguments faulty_items {CM FM WM SM SQ SC} K.
 Arguments run_call {CM FM WM SM SQ SC} K.
 Arguments run_history {CM FM WM SM SQ SC} K.
 Arguments glue_encode {CM FM WM SM SQ SC} K.
